@@ -51,3 +51,7 @@ def fill(chk, NA):
         'every acknowledgement produced for the C05 corpora plus hostile-echo documents (foreign delimiters; data containing ~ * : ^ LF in elements echoed to AK404/IK404 and in ISA/GS/ST fields echoed to the envelope, AK1 and AK2; 3-4 groups; 12 errors on one document) is re-read with the reader, recounted independently, matched line by line against the error tree, and validated again',
         'trusted: reference tokenizer/recount; re-validation may reject an acknowledgement only through element errors on fields that echo source data',
         'exhaustive enumeration of bounded document families on the real validator, acknowledgement parsed back and re-validated', 'E3', 'DESIGN.md 3/C06')
+    chk('C10', 'model_checking',
+        'every history of up to 3 (quick) / 4 (thorough) mutating tree-API calls over alphabets derived from the trees (42-59 events at full depth, 295-447 events at depth 1/2) is executed on the real x12context tree obtained from the real context reader and compared with a nested-list reference model after every call; an exists/count/first/select/get_value battery over all derived paths runs at every distinct state; three trees from two documents, copies and children of copies included',
+        'trusted: the hand-written source documents, mc/grammar.py for positions and code lists, the model insertion/matching rules, the canonical-state projection; combinations the statement leaves open are counted, not judged',
+        'explicit-state breadth-first search over API call histories of the real tree paired with a reference model', 'E2', 'DESIGN.md 3/C10')
